@@ -183,7 +183,31 @@ def gen_unit(rng):
     classes = None
     if rng.random() < 0.3:
         classes = [rng.choice(jm.STRING_CLASSES[:-1])]
-    data, exp, spans, info = streams.gen_stream(rng, nvalues=rng.choice((0, 1, 2, 3, 5, 8, 20)), tags=tags, classes=classes)
+    gen = None
+    if rng.random() < 0.15:
+        # neighbouring rows that are equal for jawk's `=` without being the same value or text (members in another order,
+        # 2^64-1 next to 2^64, -2^63 next to the double below it): each row is printed for itself
+        queue = []
+        pool = [2 ** 64 - 1, -(2 ** 63), {"id": 2 ** 64 - 1, "tags": []}, [2 ** 64 - 2], {"a": 1, "b": {"c": 2, "d": 3}}, [{"x": 1, "y": 2}], {"k": -(2 ** 63), "l": 1}]
+        near = {2 ** 64 - 1: float(2 ** 64), 2 ** 64 - 2: float(2 ** 64), -(2 ** 63): -9223372036854777000.0}
+
+        def other(v):
+            if isinstance(v, dict):
+                return {k: other(x) for k, x in reversed(list(v.items()))}
+            if isinstance(v, list):
+                return [other(x) for x in v]
+            return near.get(v, v) if isinstance(v, int) and not isinstance(v, bool) else v
+
+        def gen(r2):
+            if queue:
+                return queue.pop()
+            v = r2.choice(pool) if r2.random() < 0.6 else jm.gen_value(r2, 0, 3, classes)
+            if r2.random() < 0.6:
+                a, b = (v, other(v)) if r2.random() < 0.5 else (other(v), v)
+                queue.append(b)
+                return a
+            return v
+    data, exp, spans, info = streams.gen_stream(rng, nvalues=rng.choice((0, 1, 2, 3, 5, 8, 20)), tags=tags, classes=classes, gen=gen)
     pipeline = "merge" if r < 0.35 else ("select" if r < 0.45 else ("select-dup" if r < 0.5 else "identity"))
     return {"pipeline": pipeline, "sep": sep, "input": data, "expected": exp}
 
